@@ -60,8 +60,9 @@ def judge_output(comp, decoded, output: dict, families, spec_assignment=None) ->
         for coord, p in replay.raw_entries(fmt, dims, indices, vals):
             got[coord] = got.get(coord, Fraction(0)) + Fraction(vals[p])
         want = replay.spec_concrete(asg, inputs, idims)
-        for c, w in want.items():
+        for c in sorted(set(want) | set(got)):
             g = got.get(c, Fraction(0))
+            w = want.get(c, Fraction(0))
             if g != w:
                 probs.append(f"value: at {c} got {float(g)} expected {float(w)}")
                 break
